@@ -211,11 +211,12 @@ def fileOf (c : E2ECfg) (g : GlobalLic) (tree : ETree) (p : List String) : EFile
     readable := readableOf levels own
     infos := reuseInfoOf levels (fileInfoOf c p own) }
 
-/-- `report.copyright` (the sorted lines joined by newlines) is a non-empty string -/
-def joinedNonEmpty : List String → Bool
-  | [] => false
-  | [x] => x != ""
-  | _ => true
+/-- a copyright line that holds nothing but white space (`not line.strip()`) -/
+def isBlankStr (s : String) : Bool := (Py.strip s.toList).isEmpty
+
+/-- `report.copyright` (the sorted non-blank lines joined by newlines) is a non-empty string:
+    blank lines (`SPDX-FileCopyrightText = ""`) are not notices, however many there are -/
+def joinedNonEmpty (l : List String) : Bool := l.any fun x => !isBlankStr x
 
 def EFile.toCov (c : E2ECfg) (f : EFile) : CovFile :=
   { path := relText f.path, readable := f.readable
@@ -238,13 +239,12 @@ def licWalkList (path : List String) : List (String × ENode) → List (List Str
 end
 
 /-- the paths `_find_licenses` iterates over (`*.license` companions are skipped by `findStep`).
-    `glob("LICENSES/**")` also yields `LICENSES/` itself (CPython 3.12 `_glob2`), which the loop
-    skips when it is a directory or does not exist — a *regular file* called LICENSES is
-    therefore taken for a licence text (known finding `licenses-is-a-regular-file`). -/
+    Only a *directory* called LICENSES holds licence texts (a regular file of that name used to
+    be taken for a licence text, because `glob("LICENSES/**")` also yields `LICENSES/` itself:
+    repaired). -/
 def licFilesOf (tree : ETree) : List Text :=
   match elookup tree "LICENSES" with
   | some (.dir cs) => (licWalkList ["LICENSES"] cs).map relText
-  | some (.file _) => [relText ["LICENSES"]]
   | _ => []
 
 /-- `(root / ".reuse/dep5").exists()` -/
